@@ -8,9 +8,9 @@ PROP = 'C18'
 LEAN_TARGETS = ['Props.C18']
 REQUIRED_THEOREMS = ['Props.C18.split_concat', 'Props.C18.split_sizes', 'Props.C18.split_perm',
                      'Props.C18.loader_len_floor', 'Props.C18.loader_batch_exact', 'Props.C18.loader_covers_prefix',
-                     'Props.C18.oneHot_row']
+                     'Props.C18.oneHot_row', 'Props.C18.loader_reiterable', 'Props.C18.loops_all_from_start']
 RULE = ('split: every n in a range x test fraction x val fraction (or none) x shuffle off / on with a drawn seed; '
-        'loader: (nx, ny, batch) incl. batch 0, batch > n, with and without transform, iterated twice; '
+        'loader: (nx, ny, batch) incl. batch 0, batch > n, with and without transform, iterated twice; programs of 2-5 successive for-loops over one loader object, each abandoned after k batches (break, or explicit iter/next) or exhausted; '
         'one-hot: random integer label lists. A case is non-trivial when n > 0 (and, for split, at least two parts are '
         'non-empty or a shuffle happened); distinct = distinct protocol line')
 EXHAUSTIVE = {'quick': False, 'thorough': False}
@@ -45,6 +45,12 @@ def cases(rng, tier):
     for _ in range(20 if tier == 'quick' else 200):
         ny = rng.randint(0, 20)
         out.append({'kind': 'loader', 'nx': rng.randint(0, 20), 'ny': ny, 'b': rng.randint(1, 8), 'transform': rng.chance(.5)})
+    # successive for-loops over ONE loader object, some abandoned after k items (break), some run to exhaustion
+    for _ in range(60 if tier == 'quick' else 1500):
+        n = rng.randint(0, 14); b = rng.randint(0, 5) if rng.chance(.1) else rng.randint(1, 5)
+        L = n // b if b else 0
+        ks = [rng.pick([0, 1, 1, 2, L, L + 1, L + 3, rng.randint(0, L + 2)]) for _ in range(rng.randint(2, 5))]
+        out.append({'kind': 'loops', 'nx': n, 'ny': n, 'b': b, 'ks': ks, 'transform': rng.chance(.3), 'how': rng.pick(['break', 'next'])})
     for _ in range(40 if tier == 'quick' else 400):
         k = rng.randint(0, 12)
         lo = rng.randint(-5, 3)
@@ -68,6 +74,8 @@ def _line(c):
         return f"data split {show_ints(_perm(c))} {fbits(c['tf'])} {show_opt(lambda v: str(fbits(v)), c['vf'])}"
     if c['kind'] == 'loader':
         return f"data loader {c['nx']} {c['ny']} {c['b']}"
+    if c['kind'] == 'loops':
+        return f"data loops {c['nx']} {c['ny']} {c['b']} {show_ints(c['ks'])}"
     return f"data onehot {show_ints(c['ys'])}"
 
 
@@ -127,8 +135,42 @@ def _run_loader(c):
     return n, passes[0]
 
 
+def _run_loops(c):
+    from synapgrad.nn.utils.data import DataLoader
+    X = np.arange(c['nx']) * 10
+    y = np.arange(c['ny']) + 1000
+    dl = DataLoader(X, y, c['b'], _TF() if c['transform'] else None)
+    loops = []
+    def conv(item):
+        if c['transform']:
+            assert item[0] == 'tf'; item = item[1:]
+        return ([int(v) // 10 for v in item[0]], [int(v) - 1000 for v in item[1]])
+    for k in c['ks']:
+        seen = []
+        if c['how'] == 'break':                 # the model's `consume k`: at most k calls of __next__
+            if k > 0:
+                for item in dl:
+                    seen.append(conv(item))
+                    if len(seen) == k: break
+            else:
+                iter(dl)
+        else:                                   # explicit iter()/next() calls, abandoned without exhausting
+            it = iter(dl)
+            for _ in range(k):
+                try: seen.append(conv(next(it)))
+                except StopIteration: break
+        loops.append(seen)
+    return loops
+
+
 def impl(c):
     common.impl()
+    if c['kind'] == 'loops':
+        r = outcome(lambda: _run_loops(c))
+        if isinstance(r, str):
+            return [r]
+        sb = lambda bs: '|'.join(show_ints(x) + ';' + show_ints(y) for x, y in bs) if bs else '_'
+        return [' / '.join(sb(bs) for bs in r) if r else '_']
     if c['kind'] == 'split':
         r = outcome(lambda: _run_split(c))
         if isinstance(r, str):
@@ -155,6 +197,9 @@ def nontrivial(c):
         return c['n'] > 1 and (c['seed'] is not None or 0 < c['tf'] < 1)
     if c['kind'] == 'loader':
         return c['ny'] > 0 and c['b'] > 0
+    if c['kind'] == 'loops':
+        L = c['ny'] // c['b'] if c['b'] else 0
+        return L >= 2 and any(0 < k < L for k in c['ks'][:-1])      # an abandoned loop followed by another loop
     return len(set(c['ys'])) > 1
 
 
@@ -207,6 +252,19 @@ def oracle(c):
                 exp = list(range(i * c['b'], i * c['b'] + c['b']))
                 if x != exp or y != exp:
                     return {'key': {'kind': 'loader', 'class': 'batch'}, 'case': c, 'what': f'batch {i} is {x};{y}, expected {exp}'}
+        return None
+    if c['kind'] == 'loops':
+        if c['b'] == 0:
+            return None
+        r = outcome(lambda: _run_loops(c))
+        if isinstance(r, str):
+            return {'key': {'kind': 'loops', 'class': 'rejected'}, 'case': c, 'what': 'iterating the loader raised'}
+        L = c['ny'] // c['b']
+        for j, (k, seen) in enumerate(zip(c['ks'], r)):
+            exp = [(list(range(i * c['b'], (i + 1) * c['b'])),) * 2 for i in range(min(k, L))]
+            if [tuple(b_) for b_ in seen] != exp:
+                return {'key': {'kind': 'loops', 'class': 'not-from-start'}, 'case': c,
+                        'what': f'loop {j} (taking at most {k} batches after loops taking {c["ks"][:j]}) saw {seen}, expected the first {min(k, L)} batches {exp}'}
         return None
     from synapgrad.nn.utils.data import one_hot_encode
     r = outcome(lambda: one_hot_encode(np.array(c['ys'], dtype=np.int64)))
